@@ -465,12 +465,48 @@ def _basecall_by_interpretation(ctx, f):
     from ..consteval import run_function, Raised, Unfoldable, module_scope
     try:
         env = module_scope(ctx.ix, SEQUTILS)
-
+    except Exception:
+        return None
+    n = 0
+    full = False
+    # (1) the caller with the likelihood model as it is, on observation tables (probabilities of the single observations): unanimous positions whose observations are
+    # more likely all wrong than all right included
+    try:
+        tables = [{'A': [0.9]}, {'A': [0.3]}, {'A': [0.5]}, {'A': [0.9, 0.8]}, {'A': [0.4, 0.4]}, {'A': [0.9], 'C': [0.9]}, {'A': [0.9, 0.9], 'C': [0.8]}, {'C': [0.2], 'A': [0.6]}, {'G': [0.1, 0.2, 0.3]}]
+        for obs in tables:
+            n += 1
+            got = run_function(f, [{k_: list(v_) for k_, v_ in obs.items()}], env=env, budget=40000)
+            allp = [p_ for ps in obs.values() for p_ in ps]
+            lk = {}
+            for b_, ps in obs.items():
+                v_ = 1.0
+                for p_ in ps:
+                    v_ *= p_
+                lk[b_] = v_ / (0.25 ** (len(ps) - 1))
+            v_ = 1.0
+            for p_ in allp:
+                v_ *= (1 - p_)
+            lk['N'] = v_ / (0.25 ** (len(allp) - 1))
+            ranked = sorted(lk.items(), key=lambda kv: -kv[1])
+            tot = sum(lk.values())
+            if abs(ranked[0][1] - ranked[1][1]) < 1e-12:
+                want = ('N', 0)
+            else:
+                want = (ranked[0][0], ranked[0][1] / tot)
+            g0, g1 = tuple(got)[0], float(tuple(got)[1])
+            if g0 != want[0] or abs(g1 - float(want[1])) > 1e-9:
+                return (False, n, {'observation probabilities per base': obs, 'call': (g0, g1), 'expected (most likely of the bases and "all observations wrong")': want})
+        full = True
+    except (Unfoldable, Raised):
+        pass
+    except Exception:
+        pass
+    # (2) the decision on abstract likelihood tables (the likelihood model replaced by the table itself)
+    try:
         def hook(ev, call, env_):
             if (dotted(call.func) or '').endswith('base_probabilities_to_likelihood'):
                 return dict(ev.ev(call.args[0], env_))
             return NotImplemented
-        n = 0
         for bases in (), ('A',), ('A', 'C'), ('C', 'A'), ('A', 'C', 'N'), ('N', 'C', 'A'):
             for vals in itertools.product((1, 2, 4), repeat=len(bases)):
                 n += 1
@@ -484,9 +520,9 @@ def _basecall_by_interpretation(ctx, f):
                 if tuple(got) != want:
                     return (False, n, {'likelihood per base': lk, 'call': tuple(got), 'expected': want})
     except (Unfoldable, Raised):
-        return None
+        return (True, n, None) if full else None
     except Exception:
-        return None
+        return (True, n, None) if full else None
     return (True, n, None)
 
 
